@@ -886,6 +886,17 @@ func (w *World) assertJustified(fn *ssa.Function, ta *ssa.TypeAssert, ctxs map[s
 			}
 		}
 	}
+	// (x) the function is an entry of a dispatch table keyed by the dynamic type of Field.Attr: registered only under
+	// reflect.TypeOf(&T{}) for the asserted T, called only through lookups of that table with reflect.TypeOf(<field>.Attr)
+	if ld, ok := ta.X.(*ssa.UnOp); ok && ld.Op == token.MUL && !toIface {
+		if fa, ok := ld.X.(*ssa.FieldAddr); ok {
+			if tn, f, _, _ := fieldOf(fa); tn == "Field" && f == "Attr" {
+				if why := w.dispatchedByAttrType(fn, ta.AssertedType); why != "" {
+					return why
+				}
+			}
+		}
+	}
 	// interface-to-interface where the static type already implements the target
 	if toIface && staticImplements(ta.X.Type(), ta.AssertedType) {
 		if _, isParam := ta.X.(*ssa.Parameter); !isParam {
@@ -907,6 +918,128 @@ func (w *World) assertJustified(fn *ssa.Function, ta *ssa.TypeAssert, ctxs map[s
 		}
 	}
 	return ""
+}
+
+// dispatchedByAttrType: see justification (x) in assertJustified.
+func (w *World) dispatchedByAttrType(fn *ssa.Function, t types.Type) string {
+	// functions that stand for fn as a value: fn itself, its thunks and bound wrappers
+	stands := func(v ssa.Value) bool {
+		v = stripIdentity(v)
+		if mc, ok := v.(*ssa.MakeClosure); ok {
+			v = mc.Fn
+		}
+		g, ok := v.(*ssa.Function)
+		if !ok {
+			return false
+		}
+		if g == fn {
+			return true
+		}
+		if g.Synthetic == "" {
+			return false
+		}
+		hit := false
+		forEachInstr(g, func(_ *ssa.BasicBlock, ins ssa.Instruction) {
+			if c, ok := ins.(ssa.CallInstruction); ok && c.Common().StaticCallee() == fn {
+				hit = true
+			}
+		})
+		return hit
+	}
+	typeOfArg := func(v ssa.Value) ssa.Value {
+		c, ok := stripIdentity(v).(*ssa.Call)
+		if !ok || c.Call.StaticCallee() == nil || c.Call.StaticCallee().String() != "reflect.TypeOf" || len(c.Call.Args) != 1 {
+			return nil
+		}
+		if mi, ok := c.Call.Args[0].(*ssa.MakeInterface); ok {
+			return stripIdentity(mi.X)
+		}
+		return stripIdentity(c.Call.Args[0])
+	}
+	var table ssa.Value
+	registered := 0
+	okKeys := true
+	direct := false
+	for _, f := range w.allFuncsInRepo() {
+		forEachInstr(f, func(_ *ssa.BasicBlock, ins ssa.Instruction) {
+			switch x := ins.(type) {
+			case *ssa.MapUpdate:
+				if !stands(x.Value) {
+					return
+				}
+				registered++
+				table = valueRoot(x.Map)
+				a := typeOfArg(x.Key)
+				if a == nil || !types.Identical(a.Type(), t) {
+					okKeys = false
+				}
+			case ssa.CallInstruction:
+				if x.Common().StaticCallee() == fn && f.Synthetic == "" {
+					direct = true
+				}
+			}
+		})
+	}
+	if registered == 0 || !okKeys || direct || table == nil {
+		return ""
+	}
+	// where the table lives: a global it is stored into
+	var glob *ssa.Global
+	if mm, ok := table.(*ssa.MakeMap); ok {
+		for _, ref := range *mm.Referrers() {
+			if st, ok := ref.(*ssa.Store); ok {
+				if g, ok := st.Addr.(*ssa.Global); ok {
+					glob = g
+				}
+			}
+		}
+	}
+	if glob == nil {
+		return ""
+	}
+	lookups, okLookups := 0, true
+	for _, f := range w.srcFuncs {
+		forEachInstr(f, func(_ *ssa.BasicBlock, ins ssa.Instruction) {
+			lk, ok := ins.(*ssa.Lookup)
+			if !ok {
+				return
+			}
+			ld, ok := lk.X.(*ssa.UnOp)
+			if !ok || ld.X != ssa.Value(glob) {
+				return
+			}
+			lookups++
+			a := typeOfArg(lk.Index)
+			l2, ok := a.(*ssa.UnOp)
+			if a == nil || !ok {
+				okLookups = false
+				return
+			}
+			fa, ok := l2.X.(*ssa.FieldAddr)
+			if !ok {
+				okLookups = false
+				return
+			}
+			if tn, fname, _, _ := fieldOf(fa); tn != "Field" || fname != "Attr" {
+				okLookups = false
+			}
+		})
+	}
+	if lookups == 0 || !okLookups {
+		return ""
+	}
+	return "entry of the dispatch table " + glob.Name() + ", registered under reflect.TypeOf of the asserted type and selected by reflect.TypeOf(field.Attr)"
+}
+
+func (w *World) allFuncsInRepo() []*ssa.Function {
+	var out []*ssa.Function
+	for fn := range w.allFuncs {
+		if fn.Pkg == w.Parser || fn.Pkg == w.Model || fn.Pkg == w.Cmd {
+			out = append(out, fn)
+		}
+	}
+	sortFuncsByName(out)
+	return out
 }
 
 // designatedKind: every non-nil value y can hold was recorded where a checked assertion of its Attr to T had succeeded.
@@ -1551,64 +1684,134 @@ func (w *World) underIsIner(blk *ssa.BasicBlock, attr ssa.Value) bool {
 
 // hasVisitedSet: the function looks a key up in a map that outlives the call, returns early on a hit, and inserts into the same map.
 func hasVisitedSet(fn *ssa.Function, sameCycle func(a, b *ssa.Function) bool) bool {
-	found := false
-	forEachInstr(fn, func(b *ssa.BasicBlock, ins ssa.Instruction) {
-		lk, ok := ins.(*ssa.Lookup)
-		if !ok || !lk.CommaOk {
-			return
-		}
-		if _, isMap := lk.X.Type().Underlying().(*types.Map); !isMap {
-			return
-		}
-		if _, fresh := valueRoot(lk.X).(*ssa.MakeMap); fresh {
-			return
-		}
-		// hit edge returns
-		hitReturns := false
-		for _, ref := range *lk.Referrers() {
-			ex, ok := ref.(*ssa.Extract)
-			if !ok || ex.Index != 1 {
-				continue
+	for _, mark := range visitedMarks(fn, 0) {
+		// the mark must be set before the function recurses: it dominates every call that stays on the cycle
+		before := true
+		forEachInstr(fn, func(b3 *ssa.BasicBlock, i3 ssa.Instruction) {
+			c, ok := i3.(ssa.CallInstruction)
+			if !ok || i3 == mark {
+				return
 			}
-			for _, r2 := range *ex.Referrers() {
-				if iff, ok := r2.(*ssa.If); ok {
-					tb := iff.Block().Succs[0]
-					for _, i2 := range tb.Instrs {
-						if _, ok := i2.(*ssa.Return); ok {
-							hitReturns = true
+			g := c.Common().StaticCallee()
+			if g == nil || sameCycle == nil || !sameCycle(fn, g) {
+				return
+			}
+			if !instrDominates(mark, i3) {
+				before = false
+			}
+		})
+		if before {
+			return true
+		}
+	}
+	return false
+}
+
+// visitedMarks: the instructions of fn after which "this element was seen" is recorded and before which a seen element made fn
+// return: a map insert behind a lookup with an early return (comma-ok or boolean-valued), or a call of a test-and-set helper whose
+// result makes fn return early.
+func visitedMarks(fn *ssa.Function, depth int) []ssa.Instruction {
+	var out []ssa.Instruction
+	if fn.Blocks == nil || depth > 2 {
+		return nil
+	}
+	returnsSoon := func(blk *ssa.BasicBlock) bool {
+		for i := 0; i < 3 && blk != nil; i++ {
+			for _, ins := range blk.Instrs {
+				if _, ok := ins.(*ssa.Return); ok {
+					return true
+				}
+			}
+			if len(blk.Succs) != 1 {
+				return false
+			}
+			blk = blk.Succs[0]
+		}
+		return false
+	}
+	// branches on a value: which successor is taken when it is true
+	earlyReturnOn := func(v ssa.Value) bool {
+		if v.Referrers() == nil {
+			return false
+		}
+		for _, ref := range *v.Referrers() {
+			switch x := ref.(type) {
+			case *ssa.If:
+				if returnsSoon(x.Block().Succs[0]) || returnsSoon(x.Block().Succs[1]) {
+					return true
+				}
+			case *ssa.UnOp:
+				if x.Op == token.NOT {
+					for _, r2 := range *x.Referrers() {
+						if iff, ok := r2.(*ssa.If); ok && (returnsSoon(iff.Block().Succs[0]) || returnsSoon(iff.Block().Succs[1])) {
+							return true
 						}
 					}
 				}
 			}
 		}
-		if !hitReturns {
-			return
-		}
-		// insert into the same map expression, dominated by the lookup block, before any recursive call
-		forEachInstr(fn, func(b2 *ssa.BasicBlock, i2 ssa.Instruction) {
-			if mu, ok := i2.(*ssa.MapUpdate); ok && sameMapExpr(mu.Map, lk.X) && b.Dominates(b2) {
-				// the mark must be set before the function recurses: it dominates every call that stays on the cycle
-				before := true
-				forEachInstr(fn, func(b3 *ssa.BasicBlock, i3 ssa.Instruction) {
-					c, ok := i3.(ssa.CallInstruction)
-					if !ok {
-						return
-					}
-					g := c.Common().StaticCallee()
-					if g == nil || sameCycle == nil || !sameCycle(fn, g) {
-						return
-					}
-					if !instrDominates(mu, i3) {
-						before = false
-					}
-				})
-				if before {
-					found = true
-				}
+		return false
+	}
+	forEachInstr(fn, func(b *ssa.BasicBlock, ins ssa.Instruction) {
+		switch x := ins.(type) {
+		case *ssa.Lookup:
+			if _, isMap := x.X.Type().Underlying().(*types.Map); !isMap {
+				return
 			}
-		})
+			if _, fresh := valueRoot(x.X).(*ssa.MakeMap); fresh {
+				return
+			}
+			hit := false
+			if x.CommaOk {
+				for _, ref := range *x.Referrers() {
+					if ex, ok := ref.(*ssa.Extract); ok && ex.Index == 1 && earlyReturnOn(ex) {
+						hit = true
+					}
+				}
+			} else if bt, ok := x.Type().Underlying().(*types.Basic); ok && bt.Kind() == types.Bool {
+				hit = earlyReturnOn(x)
+			}
+			if !hit {
+				return
+			}
+			forEachInstr(fn, func(b2 *ssa.BasicBlock, i2 ssa.Instruction) {
+				if mu, ok := i2.(*ssa.MapUpdate); ok && sameMapExpr(mu.Map, x.X) && b.Dominates(b2) {
+					out = append(out, mu)
+				}
+			})
+		case *ssa.Call:
+			g := x.Call.StaticCallee()
+			if g == nil || g == fn || g.Blocks == nil || g.Pkg != fn.Pkg {
+				return
+			}
+			if bt, ok := x.Type().Underlying().(*types.Basic); !ok || bt.Kind() != types.Bool {
+				return
+			}
+			if !earlyReturnOn(x) {
+				return
+			}
+			// the helper looks the element up and inserts it
+			hasLookup, hasInsert := false, false
+			forEachInstr(g, func(_ *ssa.BasicBlock, i2 ssa.Instruction) {
+				switch y := i2.(type) {
+				case *ssa.Lookup:
+					if _, isMap := y.X.Type().Underlying().(*types.Map); isMap {
+						if _, fresh := valueRoot(y.X).(*ssa.MakeMap); !fresh {
+							hasLookup = true
+						}
+					}
+				case *ssa.MapUpdate:
+					if _, fresh := valueRoot(y.Map).(*ssa.MakeMap); !fresh {
+						hasInsert = true
+					}
+				}
+			})
+			if hasLookup && hasInsert {
+				out = append(out, x)
+			}
+		}
 	})
-	return found
+	return out
 }
 
 func sameMapExpr(a, b ssa.Value) bool {
@@ -1923,7 +2126,25 @@ func (w *World) linkNonNilByConstruction(link string) string {
 						wholeCopy = true // initialised from another value of the same type
 					}
 				}
-				if !sets && !wholeCopy {
+				// a literal that only serves as a type witness (reflect.TypeOf(&T{})) never carries the link
+				witness := len(*x.Referrers()) > 0
+				for _, ref := range *x.Referrers() {
+					mi, isMI := ref.(*ssa.MakeInterface)
+					if !isMI {
+						if _, isDbg := ref.(*ssa.DebugRef); isDbg {
+							continue
+						}
+						witness = false
+						continue
+					}
+					for _, r2 := range *mi.Referrers() {
+						c, isC := r2.(ssa.CallInstruction)
+						if !isC || c.Common().StaticCallee() == nil || c.Common().StaticCallee().String() != "reflect.TypeOf" {
+							witness = false
+						}
+					}
+				}
+				if !sets && !wholeCopy && !witness {
 					ok = false
 				}
 			}
